@@ -24,7 +24,8 @@ def run_lp(case, want_long=True):
     c.criteria = strategies.ordered_criteria(opts)
     c.run = solverio.Run(inst, opts, case.get('mode', 'eb'), case.get('choices', ()),
                          noise=case.get('noise'), salt=case.get('salt', 0),
-                         decoy=case.get('decoy')).solve()
+                         decoy=case.get('decoy'),
+                         presolves=case.get('presolves', 0)).solve()
     c.records = c.run.backend.records
     c.short_text = c.run.results('short')
     c.short = solverio.restext.parse_results(c.short_text)
@@ -70,12 +71,23 @@ def embedded_instances(draw, **kw):
     return strategies.embed(tiny, m['smap'], m['pmap'], m['lmap'])[0]
 
 
+def attach_decoy(case, decoy):
+    if decoy and 'presolves' in decoy:
+        case['presolves'] = decoy['presolves']
+    elif decoy:
+        case['decoy'] = decoy
+    return case
+
+
 def draw_decoy(draw, inst, pct_=12):
     """With probability pct_: an independent option set for a second Solver object on the
     same file, created between construction and solve of the Solver under test."""
     if pct(draw) >= pct_:
         return None
     solve = draw(st.booleans())
+    if draw(st.booleans()):
+        # variant: no second object, but earlier solve() calls on the object under test
+        return {'presolves': draw(st.sampled_from([1, 1, 2]))}
     return {'opts': draw(strategies.option_sets(inst)), 'solve': solve}
 
 
@@ -100,9 +112,7 @@ def lp_cases(draw, tier, cbc_pct=8, inst_kw=None, opt_kw=None, sizes=None, large
     opts = draw(strategies.option_sets(inst, **(opt_kw or {})))
     choices = draw(strategies.choice_lists) if mode == 'eb' else []
     case = {'inst': inst, 'opts': opts, 'choices': choices, 'mode': mode, 'salt': salt}
-    decoy = draw_decoy(draw, inst)
-    if decoy:
-        case['decoy'] = decoy
+    attach_decoy(case, draw_decoy(draw, inst))
     return case
 
 
@@ -112,4 +122,6 @@ def base_labels(c, case):
     L.append('status=' + str(c.short['pulp_status']))
     if case.get('decoy'):
         L.append('decoy_solver_object' + ('_solved' if case['decoy'].get('solve') else ''))
+    if case.get('presolves'):
+        L.append('earlier_solves_on_same_object')
     return L
